@@ -21,7 +21,7 @@ SPEC = {
     "thorough": {"shards": 16, "time_cap": 1500, "queries": 25000},
 }
 FEATS = dict(window=True, any_sub=False, setops_all=False, stars="base-only", cte_cols=True, unqualified=0.4, star_dup_order=False,
-             max_depth=3, using=False)
+             max_depth=3, using=False, scalar_setop=True)
 
 
 def leaves(node):
